@@ -152,6 +152,23 @@ theorem view_queries_eq (ps : List Nat) (hv : ValidFrom 1 ps) (t : Nat) (ht : t 
   unfold View.height
   rw [this, depth_eq wf t hts]; omega
 
+/-- `chainView.Equals` on two path views answers whether the tips are the same node -/
+theorem view_equals_iff (ps : List Nat) (hv : ValidFrom 1 ps) (t u : Nat)
+    (ht : t ≤ ps.length) (hu : u ≤ ps.length) :
+    View.equals ((pathDown (parentOf ps) t).map some) ((pathDown (parentOf ps) u).map some) = true ↔ t = u := by
+  obtain ⟨wf, hs⟩ := wf_build ps hv
+  rw [← parent_build]
+  have h1 := tip_pathView wf t (by omega : t < (build ps).size)
+  have h2 := tip_pathView wf u (by omega : u < (build ps).size)
+  unfold pathView at h1 h2
+  unfold View.equals
+  rw [h1, h2]
+  constructor
+  · intro h
+    simp only [Bool.and_eq_true, beq_iff_eq] at h
+    exact Option.some.inj h.2
+  · intro h; subst h; simp
+
 /-- `findFork(n)` on the view of tip `t` = the first node of `n`'s parent walk that lies on `t`'s
     parent walk (the lowest common ancestor); nil for nil -/
 theorem findFork_eq_lca (ps : List Nat) (hv : ValidFrom 1 ps) (t n : Nat)
@@ -365,6 +382,26 @@ example :
 theorem headers_then_blocks_same_tip (e : HF.Env) (ops : List HF.Op) :
     (HF.run e {} ops).b = (HF.run e {} (ops.filter HF.Op.isBlock)).b :=
   HF.run_blocks_only e ops {}
+
+/-- a header enters the index only when its parent is already there and not known invalid
+    ("headers must be processed in order") -/
+theorem header_accept_requires_known_parent (e : HF.Env) (b : HF.BState) (h : HF.HState) (n : Nat)
+    (hok : (HF.stepHeader e b h n).2.isErr = false) :
+    HF.inIndex b h (e.parent n) = true ∧ b.knownInvalid (e.parent n) = false ∧
+    HF.inIndex b (HF.stepHeader e b h n).1 n = true := by
+  unfold HF.stepHeader at hok ⊢
+  simp only [] at hok ⊢
+  by_cases h1 : HF.inIndex b h (e.parent n) = true
+  · by_cases h2 : b.knownInvalid (e.parent n) = true
+    · simp [h1, h2, HF.Res.isErr] at hok
+    · have h2' : b.knownInvalid (e.parent n) = false := by simpa using h2
+      refine ⟨h1, h2', ?_⟩
+      simp only [h1, h2', Bool.not_true, Bool.false_eq_true, if_false] at hok ⊢
+      repeat' split
+      all_goals first
+        | (simp_all [HF.Res.isErr]; done)
+        | (simp_all [HF.inIndex, HF.Res.isErr])
+  · simp [h1, HF.Res.isErr] at hok
 
 /-- a failed re-organisation (a block of the branch fails validation, or the branch holds a
     known-invalid block) never moves the best tip -/
